@@ -508,25 +508,27 @@ struct DocumentPredicate
             const XalanNode&    node1,
             const XalanNode&    node2) const
     {
-        // Always order a document node, or a node from another
-        // document after another node...
-        const XalanNode::NodeType   node1Type =
-            node1.getNodeType();
+        // Always order a node from another document after another node.
+        // Normalize so that a document node owns itself, which is not
+        // how DOM works, so a document node and the nodes it contains
+        // are recognized as belonging to the same document.
+        return getOwner(node1) != getOwner(node2);
+    }
 
-        const XalanNode::NodeType   node2Type =
-            node2.getNodeType();
+    static bool
+    isDocument(const XalanNode&     node)
+    {
+        const XalanNode::NodeType   nodeType =
+            node.getNodeType();
 
-        if ((node1Type == XalanNode::DOCUMENT_NODE ||
-             node1Type == XalanNode::DOCUMENT_FRAGMENT_NODE) &&
-            (node2Type == XalanNode::DOCUMENT_NODE ||
-             node2Type == XalanNode::DOCUMENT_FRAGMENT_NODE))
-        {
-            return true;
-        }
-        else
-        {
-            return node1.getOwnerDocument() != node2.getOwnerDocument();
-        }
+        return nodeType == XalanNode::DOCUMENT_NODE ||
+               nodeType == XalanNode::DOCUMENT_FRAGMENT_NODE;
+    }
+
+    static const XalanNode*
+    getOwner(const XalanNode&   node)
+    {
+        return isDocument(node) == true ? &node : node.getOwnerDocument();
     }
 };
 
@@ -539,8 +541,6 @@ struct IndexPredicate
             const XalanNode&    node1,
             const XalanNode&    node2) const
     {
-        assert(node1.getOwnerDocument() == node2.getOwnerDocument());
-
         return m_documentPredicate(node1, node2) == true ? true : node1.getIndex() > node2.getIndex() ? true : false;
     }
 
@@ -568,12 +568,17 @@ struct ExecutionContextPredicate
         }
         else
         {
+            // A document node is before every node it contains...
+            if (DocumentPredicate::isDocument(node1) == true)
+            {
+                return false;
+            }
+            else if (DocumentPredicate::isDocument(node2) == true)
+            {
+                return true;
+            }
+
             assert(node1.getOwnerDocument() == node2.getOwnerDocument());
-            assert(
-                node1.getNodeType() != XalanNode::DOCUMENT_NODE &&
-                node1.getNodeType() != XalanNode::DOCUMENT_FRAGMENT_NODE &&
-                node2.getNodeType() != XalanNode::DOCUMENT_NODE &&
-                node2.getNodeType() != XalanNode::DOCUMENT_FRAGMENT_NODE);
 
             return  m_executionContext.isNodeAfter(node1, node2);
         }
@@ -628,8 +633,17 @@ MutableNodeRefList::addNodeInDocOrder(
                             theFirstNode : theFirstNode->getOwnerDocument();
                 assert(theFirstNodeOwner != 0);
 
+                // The same normalization for the node being added...
+                const XalanNode::NodeType   theNodeType =
+                    node->getNodeType();
+
+                const XalanNode* const  theNodeOwner =
+                     theNodeType == XalanNode::DOCUMENT_NODE ||
+                     theNodeType == XalanNode::DOCUMENT_FRAGMENT_NODE ?
+                            node : node->getOwnerDocument();
+
                 if (node->isIndexed() == true &&
-                    node->getOwnerDocument() == theFirstNodeOwner)
+                    theNodeOwner == theFirstNodeOwner)
                 {
                     // If it's indexed, then see if the entire list consists of
                     // nodes from the same document.
